@@ -45,7 +45,13 @@ func (c *Ctx) Applicable(schema any, inst any, path string, visit func(objPath, 
 		for _, k := range names {
 			ps, _ := props[k].(map[string]any)
 			val, present := v[k]
-			visit(path, k, present, ps)
+			if _, viaRef := ps["$ref"]; viaRef && !present {
+				// an absent member whose property schema is a bare reference: reported under a marker name
+				// so that callers can tell "declared through $ref" apart (C18 does not demand its default)
+				visit(path, k, present, map[string]any{"x-verif-via-ref": c.deref(ps)})
+			} else {
+				visit(path, k, present, c.deref(ps))
+			}
 			if present {
 				c.Applicable(ps, val, path+"/"+k, visit)
 			}
@@ -104,7 +110,7 @@ func (c *Ctx) Applicable(schema any, inst any, path string, visit func(objPath, 
 	}
 	if anyOf, ok := s["anyOf"].([]any); ok {
 		for _, sub := range anyOf {
-			probe := &Ctx{Root: c.Root, Remotes: c.Remotes, Formats: c.Formats, Emu: c.Emu}
+			probe := &Ctx{Root: c.Root, Remotes: c.Remotes, Formats: c.Formats, Emu: c.Emu, RequiredSatisfiedByDefault: c.RequiredSatisfiedByDefault}
 			if probe.Valid(sub, inst) {
 				c.Applicable(sub, inst, path, visit)
 				break
@@ -115,7 +121,7 @@ func (c *Ctx) Applicable(schema any, inst any, path string, visit func(objPath, 
 		var sel any
 		n := 0
 		for _, sub := range oneOf {
-			probe := &Ctx{Root: c.Root, Remotes: c.Remotes, Formats: c.Formats, Emu: c.Emu}
+			probe := &Ctx{Root: c.Root, Remotes: c.Remotes, Formats: c.Formats, Emu: c.Emu, RequiredSatisfiedByDefault: c.RequiredSatisfiedByDefault}
 			if probe.Valid(sub, inst) {
 				n++
 				if sel == nil {
@@ -151,4 +157,20 @@ func HasKeyword(schema any, kw ...string) bool {
 		}
 	}
 	return false
+}
+
+// deref follows a chain of $ref to the schema object that finally describes the member.
+func (c *Ctx) deref(s map[string]any) map[string]any {
+	for i := 0; i < 50 && s != nil; i++ {
+		ref, ok := s["$ref"].(string)
+		if !ok {
+			return s
+		}
+		t, _, found := c.resolve(ref)
+		if !found {
+			return s
+		}
+		s, _ = t.(map[string]any)
+	}
+	return s
 }
